@@ -613,10 +613,9 @@ pub fn oracle_c(n: usize, run: &MpcRun, spec_json: &Value) -> (Vec<Violation>, B
                 }
                 fi += 1;
             } else {
-                let mut old32 = [0u8; 32];
-                stream.fill_bytes(&mut old32);
-                let mut f32_ = [0u8; 32];
-                fresh.fill_bytes(&mut f32_);
+                // the engine draws these with `random::<[u8; 32]>()` (element-wise sampling), so do the same
+                let old32: [u8; 32] = stream.random();
+                let f32_: [u8; 32] = fresh.random();
                 let data_ord = dval_msgs.get(pi).map(|d| tr.iter().filter(|m| m.phase == "flaand hash" && m.ord < *d).map(|m| m.ord).max().unwrap_or(0)).unwrap_or(0);
                 if last < data_ord && pi < perms.len() {
                     let sd: [u8; 32] = std::array::from_fn(|i| old32[i] ^ f32_[i]);
